@@ -156,13 +156,13 @@ with the next piece. `recvRetryA` is one *logical* receive: the caller calls aga
 reported read failure, any number of times. -/
 
 /-- a piece of a script: chunks, then how this piece ends -/
-abbrev Piece := List Bytes × Term
+abbrev ScriptPiece := List Bytes × Term
 
 /-- one logical `receive` of a caller that retries after a failed read. Returns the item, the
 receive buffer, the builder state, and what is left of the script (rest of the current piece, its
 terminal condition, later pieces). -/
 def recvRetryA (σ : BState) (buf : Bytes) (cs : List Bytes) (t : Term) :
-    List Piece → Item × Bytes × BState × List Bytes × Term × List Piece
+    List ScriptPiece → Item × Bytes × BState × List Bytes × Term × List ScriptPiece
   | [] => ((recvLoopA σ buf cs t).1, (recvLoopA σ buf cs t).2.1, (recvLoopA σ buf cs t).2.2.2,
            (recvLoopA σ buf cs t).2.2.1, t, [])
   | p :: more =>
@@ -171,7 +171,7 @@ def recvRetryA (σ : BState) (buf : Bytes) (cs : List Bytes) (t : Term) :
     | (it, buf', cs', σ') => (it, buf', σ', cs', t, p :: more)
 
 /-- a session of logical receives (see `sessionA`) -/
-def sessionRetryA : Nat → Nat → BState → Bytes → List Bytes → Term → List Piece → List Item
+def sessionRetryA : Nat → Nat → BState → Bytes → List Bytes → Term → List ScriptPiece → List Item
   | 0, _, _, _, _, _, _ => []
   | fuel + 1, extra, σ, buf, cs, t, more =>
     match recvRetryA σ buf cs t more with
@@ -182,15 +182,15 @@ def sessionRetryA : Nat → Nat → BState → Bytes → List Bytes → Term →
       | e + 1 => it :: sessionRetryA fuel e σ' buf' cs' t' more'
 
 /-- the script without the failures: all chunks in order … -/
-def flatScript (cs : List Bytes) (more : List Piece) : List Bytes := cs ++ more.flatMap (·.1)
+def flatScript (cs : List Bytes) (more : List ScriptPiece) : List Bytes := cs ++ more.flatMap (·.1)
 
 /-- … ending the way the last piece ends -/
-def lastTerm (t : Term) : List Piece → Term
+def lastTerm (t : Term) : List ScriptPiece → Term
   | [] => t
   | p :: more => lastTerm p.2 more
 
 /-- every piece but the last ends in a (recoverable) read failure -/
-def IoChain : Term → List Piece → Prop
+def IoChain : Term → List ScriptPiece → Prop
   | _, [] => True
   | t, p :: more => (∃ k, t = .ioerr k) ∧ IoChain p.2 more
 
